@@ -50,7 +50,7 @@ TARGETS = {
     "float": [("temp", False)],
     "deep": [("outer.inner.code", True), ("outer.list.v", True)],
 }
-U8 = [1, 2, 3]
+U8 = [0, 1, 2, 3]  # includes the falsy value 0
 ASCII = ["AAA", "BBB", "CCC"]
 BYTES = ["0a0b", "0a0c", "ff00"]
 DIDS = [0xF190, 0xF191, 0xF1A0, 0x0101]
@@ -187,13 +187,13 @@ def gen_values(r, layout: str) -> Dict[str, Any]:
 def gen_expected(r, layout: str, target: str) -> str:
     vt = value_type(layout, target)
     if vt == "u8":
-        return r.choice(["1", "2", "3", "3", "4", "01", "zz", ""][:6 if r.random() < 0.9 else 8])
+        return r.choice(["0", "1", "2", "3", "3", "4", "01", "zz", ""][:7 if r.random() < 0.9 else 9])
     if vt == "ascii":
         return r.choice(ASCII + ["aaa", "AAAA"])
     if vt == "bytes":
         return r.choice(["0A0B", "0a0b", "0A0C", "FF00", "ff00", "0A", "0A0B00"])
     if vt == "float":
-        return r.choice(["0.5", "1.0", "1", "1.5", "1.50", "2.5", "1.00000000001", "1.0001"])
+        return r.choice(["0", "0.0", "0.5", "1.0", "1", "1.5", "1.50", "2.5", "1.00000000001", "1.0001"])
     raise ValueError(vt)
 
 
